@@ -293,7 +293,9 @@ impl Report {
         violations: &[Violation],
         known_hits: &[(Known, String)],
     ) -> i32 {
-        let root = verif_root();
+        // Mutation probes (tools/probe.sh sets VERIF_PROBE) run against a deliberately broken tree:
+        // their evidence and replay files go to work/probe/, never to the tracked locations.
+        let root = if std::env::var_os("VERIF_PROBE").is_some() { verif_root().join("work").join("probe") } else { verif_root() };
         // De-duplicate violations by signature; keep the smallest case per signature.
         let mut by_sig: BTreeMap<String, &Violation> = BTreeMap::new();
         for v in violations {
